@@ -333,7 +333,7 @@ def blame(ctx: Ctx, mode: dict, inst: list, only_unsafe: bool = False) -> dict:
                     "step": stage["name"],
                     "iter": stage["iter"],
                     "removed": list((cb - ca).elements())[:8],
-                    "added": list((ca - cb).elements())[:12],
+                    "added": list((ca - cb).elements())[:30],
                     **bad,
                 }
         prev = stage
@@ -367,7 +367,7 @@ def check_stepwise(ctx: Ctx, mode: dict) -> list[dict]:
                         "instance": inst,
                         "error": res.error[:200],
                         "removed": list((cb - ca).elements())[:8],
-                        "added": list((ca - cb).elements())[:12],
+                        "added": list((ca - cb).elements())[:30],
                     }
                 )
                 break
@@ -386,7 +386,7 @@ def check_stepwise(ctx: Ctx, mode: dict) -> list[dict]:
                             "instance": inst,
                             "diff": d,
                             "removed": list((cb - ca).elements())[:8],
-                            "added": list((ca - cb).elements())[:12],
+                            "added": list((ca - cb).elements())[:30],
                             "result_undefined": bool(res.undefined),
                         }
                     )
